@@ -280,8 +280,16 @@ def _r12_2(prog: Program, res: Result) -> None:
         if isinstance(n, ast.Attribute) and n.attr in ("AST_TYPES_WITH_BODY", "AST_TYPES_WITH_ORELSE"):
             walked.add(n.attr)
     # the node whose blocks are read must be the one bound by the walk over the block kinds (no rebinding in between)
+    from ..defuse import bindings as _bnd
+
+    def iter_text(e: ast.AST) -> str:
+        t = norm(e)
+        for x in ast.walk(e):      # the kinds may be handed over through a local
+            if isinstance(x, ast.Name):
+                t += " " + " ".join(norm(v) for _s, v in _bnd(fn).get(x.id, []) if v is not None)
+        return t
     walk_loop = next((n for n in walk_own(fn.node) if isinstance(n, ast.For) and isinstance(n.target, ast.Name)
-                      and "AST_TYPES_WITH" in norm(n.iter)), None)
+                      and "AST_TYPES_WITH" in iter_text(n.iter)), None)
     if walk_loop is not None:
         pa = PathAnalysis(prog, fn)
         want = f"{walk_loop.target.id}#i{pa.nid(walk_loop)}"
